@@ -168,6 +168,10 @@ TieGames ==
                 << <<Tr("", 1, 6), Tr("", 2, 7)>>,                <<Tr("", 2, 7), Tr("", 1, 6)>> >>,
                 << <<Tr("", 3, 2), Tr("", 1, 7), Tr("", 1, 6)>>,  <<Tr("", 1, 7), Tr("", 1, 6)>> >>,   \* cycle (K1 witness)
                 << <<Tr("", 1, 5), Tr("", 1, 6)>>,                <<Tr("", 1, 7), Tr("", 3, 6)>> >>,   \* via aux (1/2 * 1/2)
+                \* decimal weights: the float sums differ from the float of the exact value
+                << <<Tr("", 1, 7), Tr("", 7, 7), Tr("", 2, 6)>>,  <<Tr("", 8, 7), Tr("", 2, 6)>> >>,   \* 0.1+0.7 vs 0.8
+                << <<Tr("", 1, 7), Tr("", 2, 7), Tr("", 7, 6)>>,  <<Tr("", 3, 7), Tr("", 7, 6)>> >>,   \* 0.1+0.2 vs 0.3
+                << <<Tr("", 2, 7), Tr("", 1, 6), Tr("", 7, 7)>>,  <<Tr("", 1, 6), Tr("", 9, 7)>> >>,   \* 0.2+0.7 vs 0.9
                 << <<Tr("", 1, 7)>>,                              <<Tr("", 2, 7), Tr("", 3, 7)>> >>,   \* both 1
                 << <<Tr("", 1, 6)>>,                              <<Tr("", 2, 6), Tr("", 1, 6)>> >> }  \* both 0
         Zrow == { <<Tr("", 1, 6)>>, <<Tr("", 1, 7)>>, <<Tr("", 1, 7), Tr("", 9, 6)>>, <<Tr("", 9, 7), Tr("", 1, 6)>> }
